@@ -93,6 +93,23 @@ Proof.
 Qed.
 Print Assumptions lazy_wrapper_left_after_first_call.
 
+(* In the course of one call through a public address -- with all the nested calls it triggers,
+   recursion through the call graph included -- the hook of a lazy wrapper runs at most once per
+   function, it never runs for a function that was already on shim/code/bb, and when it ran the
+   function is settled afterwards. *)
+Theorem lazy_wrapper_entered_at_most_once : forall callees n u ops w f orc w',
+  0 <= u < 2 ^ 64 ->
+  run callees (init_world n u) ops = Ok w -> step callees w (OCall f orc) = Ok w' ->
+  forall h g, get_fn w h = Some g -> exists g', get_fn w' h = Some g'
+    /\ (settled w h -> wrap_entries g' = wrap_entries g)
+    /\ (wrap_entries g' = wrap_entries g \/ (wrap_entries g' = S (wrap_entries g) /\ settled w' h)).
+Proof.
+  intros callees n u ops w f orc w' Hu Hr Hs.
+  destruct (run_ok callees ops _ _ (init_Inv n u Hu) Hr) as [HI _].
+  exact (call_wrap_once callees w f orc w' HI Hs).
+Qed.
+Print Assumptions lazy_wrapper_entered_at_most_once.
+
 (* Whole-function code is produced at most once per function, and once machine_code is set it
    (and call_addr) never change again, whatever follows. *)
 Theorem code_generated_at_most_once : forall callees n u ops1 w1 f g ops2 w2,
